@@ -41,7 +41,7 @@ def raceSchedule : List Act :=
 /-- DEFECT (fixed, findings/C16.json `two-attempts-in-flight`): with `checkServer` and `setInFlightConnection` in
     separate critical sections two concurrent requests both pass the check — two attempts in flight. -/
 theorem one_in_flight_fails_check_set_race :
-    (run ⟨false, [], false, false⟩ {} raceSchedule).map inFlightCount = some 2 := by decide
+    (run ⟨false, [], false, false, false⟩ {} raceSchedule).map inFlightCount = some 2 := by decide
 
 /-- the same schedule on the repaired code: the second request is answered InProgress -/
 theorem race_schedule_repaired :
@@ -57,7 +57,7 @@ def foreignResetSchedule : List Act :=
     unsuccessful result — request B, merely answered InProgress, frees the slot of the stalled request A, and
     request C starts a second attempt. -/
 theorem one_in_flight_fails_foreign_reset :
-    (run ⟨false, [], true, true⟩ { scripts := fun _ => [(.accept, true)] } foreignResetSchedule).map
+    (run ⟨false, [], true, true, false⟩ { scripts := fun _ => [(.accept, true)] } foreignResetSchedule).map
       (fun s => (inFlightCount s, (s.tasks 1).res)) = some (2, some .inprogress) := by decide
 
 theorem foreign_reset_schedule_repaired :
@@ -113,6 +113,35 @@ theorem after_success_partial (cfg : Cfg) (hr : Repaired cfg) (s : St) (h : Reac
       rw [hI.c2.b1 c' c hc' hlt hp' hp] at hs; exact hs.symm
     · intro hs; exact ⟨c, hlt, hp, hs.symm⟩
 
+/-- number of backend connections in play -/
+def playCount (s : St) : Nat := ((List.range s.nconns).filter fun c => (s.conns c).phase = .play).length
+
+/-- a request object created while the player had NO server (snapshot `previousServer` = nil), kept, and connected
+    only after the player joined server 1 -/
+def staleSchedule (backSteps : Nat) : List Act :=
+  [.create 2 1,                                                            -- CreateConnectionRequest(2): snapshot nil
+   .spawn .plain 1 .allow, .task 1, .task 1, .task 1, .task 1, .task 1,    -- join server 1 …
+   .back 0, .back 0, .back 0, .back 0, .back 0, .task 1, .task 1, .task 1, .task 1,
+   .task 0, .task 0, .task 0, .task 0, .task 0, .task 0] ++                -- Connect() on the stale object … dial
+  List.replicate backSteps (.back 1) ++ [.task 0, .task 0, .task 0, .task 0]
+
+/-- `after_success_partial` quantifies over the CREATION point of the request: `Act.create` may occur anywhere in the
+    schedule and the request may be connected at any later point.  Here: the stale request of `staleSchedule` on the
+    repaired code (hypothesis G2 checked at every step by `run2`) — the switch closes server 1's connection although
+    the request's own snapshot says "no previous server". -/
+theorem stale_request_repaired :
+    (run2 (repaired false [1, 2]) {} (staleSchedule 6)).map
+      (fun s => ((s.tasks 0).res, (s.tasks 0).prev, s.current, s.players, (s.conns 0).phase, playCount s)) =
+      some (some .ok, none, some 1, [2], .closed, 1) := by rfl
+
+/-- SEEDED DEFECT (variant `joinBySnapshot`): if handleJoinGame looks up and closes the existing connection only when
+    the request's SNAPSHOT is non-nil, the same stale request reports Success while server 1's connection stays in
+    play: two live backends, the player in both lists. -/
+theorem after_success_fails_stale_snapshot :
+    (run ⟨false, [1, 2], true, false, true⟩ {} (staleSchedule 5)).map
+      (fun s => ((s.tasks 0).res, s.current, s.players, (s.conns 0).phase, playCount s)) =
+      some (some .ok, some 1, [2, 1], .play, 2) := by rfl
+
 /-- no switch-over section of handleJoinGame / doSwitch is half done -/
 def NoSection (s : St) : Prop :=
   ∀ d, d < s.nconns → (s.conns d).h ≠ .j1b ∧ (s.conns d).h ≠ .sw3 ∧ (s.conns d).h ≠ .j4
@@ -153,6 +182,7 @@ def switchAct (s : St) : Act → Bool
     swA C.h || (C.h == .idle && C.phase == .transition && C.beh == .accept)
   | .task i => isKickPc (s.tasks i).pc || ((s.tasks i).pc == .cancel && (s.tasks i).mode == .redirect)
   | .spawn _ _ _ => false
+  | .create _ _ => false
   | .release _ => false
   | .kick _ => true
   | .drop _ => true
@@ -210,6 +240,7 @@ theorem failed_safe (cfg : Cfg) (s s' : St) (a : Act) (hJP : JP s) (h : step cfg
                | (rcases hJ0.2.2.2.1 hh with h | h | h <;> simp [h])
            exact ⟨by simp, by simp [closeConn_players_not_play s c0 hnp], by simp⟩)
   | spawn m d ev => simp [step] at h; subst h; exact ⟨rfl, rfl, rfl⟩
+  | create d tag => simp [step] at h; subst h; exact ⟨rfl, rfl, rfl⟩
   | release c0 => simp only [step] at h; split at h <;> simp at h; subst h; exact ⟨rfl, rfl, rfl⟩
   | kick c0 => simp [switchAct] at hns
   | drop c0 => simp [switchAct] at hns
@@ -268,7 +299,7 @@ theorem noop_results (cfg : Cfg) (hr : Repaired cfg) (s s' : St) (i : Nat) (hi :
     ((s.tasks i).pc = .post → sharedEq s s' ∧ (s'.tasks i).pc = .cancel ∧ (s'.tasks i).res = (s.tasks i).res) ∧
     ((s.tasks i).pc = .cancel → (s.tasks i).conn = none → (s.tasks i).mode = .plain →
         sharedEq s s' ∧ (s'.tasks i).pc = .done ∧ (s'.tasks i).res = (s.tasks i).res) := by
-  obtain ⟨hat, hfr⟩ := hr
+  obtain ⟨hat, hfr, _⟩ := hr
   simp only [step] at h
   unfold stepTask at h
   rw [if_neg (by omega)] at h
@@ -291,7 +322,7 @@ theorem noop_results (cfg : Cfg) (hr : Repaired cfg) (s s' : St) (i : Nat) (hi :
 /-- DEFECT (fixed): in the original code the post-processing of such a no-op request cleared the in-flight slot
     that belongs to ANOTHER request. -/
 theorem noop_results_fails_foreign_reset :
-    (run ⟨false, [], true, true⟩ { scripts := fun _ => [(.accept, true)] } (foreignResetSchedule.take 9)).map
+    (run ⟨false, [], true, true, false⟩ { scripts := fun _ => [(.accept, true)] } (foreignResetSchedule.take 9)).map
       (fun s => (s.inFlight, (s.tasks 1).res, (s.tasks 0).pc)) = some (none, some .inprogress, .wait) := by decide
 
 /-! ## 5. tie to the source (regenerated facts) -/
@@ -338,6 +369,13 @@ theorem src_sections :
     loginHandleDisconnectCalls.drop 3 = ["b.requestCtx.result", "b.serverConn.disconnect"] ∧
     transitionHandleDisconnectCalls.drop 8 = ["b.requestCtx.result", "b.serverConn.disconnect"] := by decide
 
+open Gate.Gen.C16 in
+/-- `handleJoinGame` takes the player lock unconditionally and unlocks on both branches of `existingConn != nil`
+    (the lookup of the connection to close is not guarded by anything the request carries) -/
+theorem src_joingame_lookup_unconditional :
+    handleJoinGameCalls.filter (fun c => c = "b.serverConn.player.mu.Lock" ∨ c = "b.serverConn.player.mu.Unlock") =
+      ["b.serverConn.player.mu.Lock", "b.serverConn.player.mu.Unlock", "b.serverConn.player.mu.Unlock"] := by decide
+
 /-! ## non-vacuity -/
 
 def switchSchedule : List Act :=
@@ -364,6 +402,6 @@ example : ∃ s, Reach (repaired false [1, 2, 3]) G2 s ∧ (s.tasks 1).res = som
       decide
     rw [hrun] at this; simpa using this
 
-example : Repaired (repaired true [1]) := ⟨rfl, rfl⟩
+example : Repaired (repaired true [1]) := ⟨rfl, rfl, rfl⟩
 
 end Gate.C16.Props
